@@ -74,6 +74,9 @@ func (c10) Gen(r *sim.Rand, tier string, run uint64) *sim.Scenario {
 				bank = nb - 1
 			}
 		}
+		if r.Chance(1, 12) && nb < 0x7D {
+			bank = nb + r.Intn(3) // a bank behind the end of the image
+		}
 		var page int
 		switch r.Intn(10) {
 		case 0:
@@ -926,6 +929,18 @@ func (c c10) Exec(sc *sim.Scenario, env *sim.Env) (viol *sim.Violation) {
 			if (!s.low && (bank > 0x7F || bank >= nb)) || (s.low && bank > 0xFF) {
 				s.skip = true
 				streams[id] = s
+				if !s.low && !s.isW && bank <= 0x7F {
+					// a bank behind the end of the image: what such a stream delivers (or whether
+					// opening it panics) is not asked. It is opened and read once all the same,
+					// so that whatever the library does there happens under C18's eyes
+					sim.RecoverLib(func() {
+						if r := rom.BusReader(addr); r != nil {
+							_, _ = r.Read(make([]byte, 1+int(addr&63)))
+						}
+					})
+					st.Probe("reader_behind_image_end")
+					w.compareImage("open")
+				}
 				continue
 			}
 			if !s.low {
